@@ -21,6 +21,8 @@ type Part struct {
 	Enc     string `json:"enc,omitempty"`     // "", "qp", "b64", "8bit" ("" = message encoding)
 	Desc    string `json:"desc,omitempty"`    // WithPartContentDescription
 	Charset string `json:"charset,omitempty"` // WithPartCharset
+	Via     string `json:"via,omitempty"`     // "" = *Writer API, "string" = SetBodyString / AddAlternativeString
+	Deleted bool   `json:"deleted,omitempty"` // Part.Delete() is called after the part was added
 }
 
 // File is an embed or attachment.
@@ -55,6 +57,7 @@ type Msg struct {
 	NoDate   bool        `json:"nodate,omitempty"`   // let go-mail generate Date / Message-ID on first use
 	Charset  string      `json:"charset,omitempty"`
 	NoUA     bool        `json:"noua,omitempty"`
+	ReAdd    bool        `json:"readd,omitempty"` // files are added, removed with UnsetAll*, and added again
 }
 
 // Hooks lets a check wrap every content producer.
@@ -174,10 +177,20 @@ func Build(s Msg, h *Hooks) (*mail.Msg, error) {
 			po = append(po, mail.WithPartCharset(mail.Charset(p.Charset)))
 		}
 		w := wrap(fmt.Sprintf("part%d", i), p.Content)
-		if i == 0 {
+		switch {
+		case p.Via == "string" && i == 0:
+			m.SetBodyString(ctOf(p.Type), string(p.Content), po...)
+		case p.Via == "string":
+			m.AddAlternativeString(ctOf(p.Type), string(p.Content), po...)
+		case i == 0:
 			m.SetBodyWriter(ctOf(p.Type), w, po...)
-		} else {
+		default:
 			m.AddAlternativeWriter(ctOf(p.Type), w, po...)
+		}
+	}
+	for i, p := range s.Parts {
+		if p.Deleted && i < len(m.GetParts()) {
+			m.GetParts()[i].Delete()
 		}
 	}
 	mkFiles := func(kind string, fs []File, attach bool) {
@@ -235,6 +248,12 @@ func Build(s Msg, h *Hooks) (*mail.Msg, error) {
 	}
 	mkFiles("embed", s.Embeds, false)
 	mkFiles("attach", s.Attach, true)
+	if s.ReAdd {
+		m.UnsetAllEmbeds()
+		m.UnsetAllAttachments()
+		mkFiles("embed", s.Embeds, false)
+		mkFiles("attach", s.Attach, true)
+	}
 	if s.SMIME != 0 {
 		mat := hx.Mat()
 		kp := mat.SignRSA
